@@ -15,6 +15,10 @@ CHECKS = {
    "stateless model checking of the real client/handler under a controlled scheduler (testing/synctest bubble + yield points), delay-bounded exhaustive schedule enumeration, against a two-process FIFO reference model",
    "Every admissible pair of a client program over {Send, CloseRequest, Receive, CloseResponse, cancel} and a handler program {receive i, send j, drain?, nil|error}, in each protocol and request-window mode, is executed on the real library under a scheduler that owns every interleaving decision; every schedule with at most d delays at the library's and the environment's yield points is enumerated (d=1 quick, d=2 thorough - the property's 'every single point, every pair'). Oracles: no deadlock (decided by quiescence, not wall-clock), no library goroutine left, response body closed, handler sees EOF after CloseRequest, Sends after the end fail with io.EOF, Receive sequence equals the reference model, errors are sticky.",
    "memhttp models the RoundTripper/Handler contract; schedules inside the real net/http stack are not explored; statement-granular sequentially consistent interleavings; delay bound and program length bounded"),
+ "C15": ("model_checking", "DESIGN.md 4/C15",
+   "stateless model checking under a controlled scheduler with cancellation / fake-clock expiry as scheduler choices, delay-bounded exhaustive enumeration of the cancellation instant",
+   "The cancel() call (thread ~x) or the deadline expiry (fake clock of the synctest bubble, event ~clock) is placed at every yield point of every client program - before the call, between operations, and while a Send or Receive is blocked - against handlers that wait for ctx.Done and return ctx.Err. Every operation that fails after the event must carry canceled / deadline_exceeded (Send may return the io.EOF stream-closed error), Send/Receive started afterwards never succeed, the handler's context is cancelled, no goroutine is left. A sequential family checks that handlers returning bare or wrapped context errors convey the same code.",
+   "memhttp's cancellation behaviour mirrors net/http's documented contract; transports whose abort error does not wrap the context error are out of scope; delay bound 1 (the event itself) in quick, 2 in thorough"),
 }
 
 PENDING = {
